@@ -169,6 +169,70 @@ namespace vh
       for (std::size_t i = 0; i < vb.size(); ++i)
         if (vb[i] != val(i))
           o.n(i);
+      // ForEach (two / three operands), Fill, Copy, Swap on index-coded data
+      DM idx(rows, cols, 0.0), vals(rows, cols, 0.0);
+      for (std::size_t i = 0; i < idx.AsVector().size(); ++i)
+      {
+        idx.AsVector()[i] = (double)(i + 1);
+        vals.AsVector()[i] = val(i);
+      }
+      {
+        DM t2 = idx;
+        t2.ForEach([](double& tt, const double& aa) { tt = tt * 3.0 + aa; }, vals);
+        o.key("fe2");
+        for (auto e : t2.AsVector())
+          o.d(e);
+        DM t3 = idx;
+        t3.ForEach([](double& tt, const double& aa, const double& bb) { tt = tt + aa * bb; }, vals, idx);
+        o.key("fe3");
+        for (auto e : t3.AsVector())
+          o.d(e);
+        DM f = idx;
+        f.Fill(7.5);
+        o.key("fill");
+        for (auto e : f.AsVector())
+          o.d(e);
+        DM f2 = idx;
+        f2 = 7.5;
+        if (f2.AsVector() != f.AsVector())
+          o.os << " assign_scalar_differs_from_fill";
+      }
+      {
+        // `other` has the same storage size when that size is even, one more row's worth of mismatch otherwise
+        std::size_t n = idx.AsVector().size();
+        bool mismatch = n % 2 == 1;
+        DM other = mismatch ? DM(1, n + 1, 2.5) : DM(rows, cols, 2.5);
+        if (!mismatch)
+          for (auto& e : other.AsVector())
+            e = 2.5;
+        o.key("copy");
+        try
+        {
+          DM c = idx;
+          c.Copy(other);
+          for (auto e : c.AsVector())
+            o.d(e);
+        }
+        catch (const std::runtime_error&)
+        {
+          o.os << "runtime_error";
+        }
+        o.key("swap");
+        try
+        {
+          DM c = idx;
+          DM o2 = other;
+          c.Swap(o2);
+          for (auto e : c.AsVector())
+            o.d(e);
+          for (auto e : o2.AsVector())
+            o.d(e);
+        }
+        catch (const std::runtime_error&)
+        {
+          o.os << "runtime_error";
+        }
+      }
     }
     return o.os.str();
   }
